@@ -634,6 +634,8 @@ def case(ctx, rng, idx, state):
     system = gen_systems.herm_system(rng, num_wann=nw, lattice=lattice, radius=rng.uniform(1.0, 2.2), keys=keys,
                                      centers=["random", "outside", "zero"][int(rng.integers(3))],
                                      spinor=True if has_SS else None)
+    system, hist = gen_systems.history_variant(rng, system, which=gen_systems.HISTORIES_NO_DISK[idx % 4])   # state reached through the API first
+    ctx.count(f"history_{hist}")
     recip = recip_of(lattice)
     if use_sp:
         path, K = sp_out[0], sp_out[1]
